@@ -211,6 +211,21 @@ def Realises (disk : Bytes → Bytes → Option Bytes) (a : Archive) : Prop :=
   ∀ e c ch k, e < 10 → ch < 255 →
     disk (repoDir e) (indexName a.platform e c ch k) = (a.slot e c ch k).bytes
 
+def allCategories : List Category :=
+  [.common, .bgcommon, .bg, .cut, .chara, .shader, .ui, .sound, .vfx, .uiScript, .exd,
+   .gameScript, .music, .sqpackTest, .debug]
+
+/-- every (expansion, category, chunk, kind) lookup can name -/
+def allSlots : List (Nat × Category × Nat × Kind) :=
+  (List.range 10).flatMap fun e => allCategories.flatMap fun c => (List.range 255).flatMap fun ch =>
+    [(e, c, ch, Kind.index1), (e, c, ch, Kind.index2)]
+
+/-- the canonical disk of an archive: its index files under their names, nothing else -/
+def diskOf (a : Archive) : Bytes → Bytes → Option Bytes := fun d n =>
+  match allSlots.find? (fun x => repoDir x.1 == d && indexName a.platform x.1 x.2.1 x.2.2.1 x.2.2.2 == n) with
+  | some x => (a.slot x.1 x.2.1 x.2.2.1 x.2.2.2).bytes
+  | none => none
+
 /-! ### what is stored, and where -/
 
 def jamcrc (s : Bytes) : UInt32 := Crc32.crcBitwise 0xFFFFFFFF 0 s
